@@ -323,8 +323,14 @@ def run_gibbs(c, rec):
             gB.sample(M)
             SB = gB.get_samples()
         else:
-            gB.sample(N, Nb)
+            S1 = gB.sample(N, Nb)
+            first = {k: np.array(S1[k].samples, dtype=float).copy() for k in ("x", "d", "l")}
             SB = gB.sample(M)
+            # what the first call handed out must not be altered by the continuation (stored entries are never altered afterwards)
+            for k in first:
+                require(np.asarray(S1[k].samples).shape == first[k].shape and maxdiff(np.asarray(S1[k].samples, dtype=float), first[k]) == 0,
+                        f"{name}: the chain returned by the first sample() call was altered by the next call (block '{k}')",
+                        before=first[k], after=np.asarray(S1[k].samples, dtype=float))
         # recording: run sweep by sweep and compare what the sampler holds after each sweep with the finally stored chain
         np.random.seed(c["seed"])
         gC = mk()
